@@ -91,10 +91,36 @@ def fanin_batches(rng, n):
     return out
 
 
+def owned_derived():
+    """a computation that reads a memo / selector it created itself in the same run: the owned node has inputs of its own, so the
+    owner must be ordered after it and re-run when it changes, and whoever reads the owner must see the up-to-date value"""
+    out = []
+    for ok in ("memo", "selector", "effect"):
+        for nk in ("memo", "selector", "chain"):
+            for how in ("plain", "batch", "extra-input"):
+                inner_body = ("body", None, [], ("mul", ("get", 1), ("lit", 2)))
+                inner = [("memo", 4, inner_body)] if nk == "memo" else [("selector", 4, 0, inner_body)]
+                if nk == "chain":
+                    inner = [("memo", 6, inner_body), ("memo", 4, ("body", None, [], ("add", ("get", 6), ("lit", 10))))]
+                ret = ("add", ("get", 4), ("lit", 1)) if how != "extra-input" else ("add", ("get", 4), ("get", 2))
+                ob = ("body", None, inner, ret)
+                owner = (ok, 3, ob) if ok != "selector" else ("selector", 3, 0, ob)
+                prog = [("signal", 1, ("lit", 0)), ("signal", 2, ("lit", 0)), owner]
+                if ok != "effect":
+                    prog.append(("effect", 5, ("body", None, [], ("add", ("get", 1), ("get", 3)))))
+                    prog.append(("memo", 7, ("body", None, [], ("add", ("get", 3), ("get", 2)))))
+                for v in (1, 2, 7):
+                    w = [("set", 1, ("lit", v))] + ([("set", 2, ("lit", v + 1))] if how != "plain" else [])
+                    prog += [("batch", w)] if how == "batch" else w
+                out.append(prog)
+    return out
+
+
 def gen(tier, rng):
     n_small, n_dia, n_rand = (500, 400, 500) if tier == "quick" else (8000, 6000, 8000)
     cases = [("small:%d" % i, p) for i, p in enumerate(c01.small_family(n_small, rng))]
     cases += [("diamond:%d" % i, p) for i, p in enumerate(diamonds(rng, n_dia))]
+    cases += [("owned-derived:%d" % i, p) for i, p in enumerate(owned_derived())]
     cases += [("fanin-batch:%d" % i, p) for i, p in enumerate(fanin_batches(rng, 400 if tier == "quick" else 5000))]
     cases += [("random:%d" % i, p) for i, p in
               enumerate(reactive_gen.random_programs(rng.randrange(1 << 30), n_rand, FEATS, (3, 8), (2, 6)))]
@@ -126,7 +152,7 @@ def main(argv):
         PID, argv, module="C02", theorems=['C02_one_entry_per_scheduled_node', 'C02_schedule_has_no_duplicates', 'C02_runs_only_if_dirty', 'C02_step', 'C02_write_schedule',
                                           'C02_write_reads_settled', 'C02_write_runs_only_if_fired', 'C02_write_runs_if_fired', 'C02_untracked_read_sees_stale_value'], bridge=1500, extra_targets=["theories/Reactive/Bridge.vo"], gen=gen, oracle=oracle, nontrivial=nontrivial,
         rule=("effect-write-free programs: the C01 small family, layered diamonds (depth 2-4, fan-in through selectors with "
-              "coarse equality, conditional reads, effects creating inner effects), fan-in graphs under batches that write several "
+              "coarse equality, conditional reads, effects creating inner effects), computations that read a memo / selector they created themselves, fan-in graphs under batches that write several "
               "signals in every order (multi-source propagation), random programs; histories of writes and "
               "batches; non-trivial = some propagation ran >= 3 computations; distinct = distinct program text"),
         assumptions=["programs whose effects do not write signals (as the property states)",
